@@ -198,12 +198,243 @@ Proof.
 Qed.
 
 (* ------------------------------------------------------------- unique *)
-(* one legal schedule per chunk: the serial one *)
-Definition serial_ops (n : nat) : list scan_op := if n =? 0 then [] else [OFinal 0 0 n].
+Section CopyIfGeneral.
+  Context {V : Type}.
+  Variable pred : nat -> bool.
+  Variable input : nat -> V.
 
-(* F10: a run of equal values that straddles a chunk boundary keeps a duplicate *)
-Lemma unique_chunk_boundary_counterexample :
-  legal_scan 1 (serial_ops 1) = true /\ legal_scan 0 (serial_ops 0) = true /\
-  unique_par 2 [serial_ops 1; serial_ops 0] [7; 7; 7]%Z = Some [7; 7]%Z /\
-  dedup [7; 7; 7]%Z = [7]%Z.
+  Lemma scan_range_copyif_spec : forall l t out,
+      let r := scan_range Nat.add (cm pred) (cemit pred input) true l t out in
+      fst r = t + length (filter pred l) /\
+      map (snd r) (seq t (length (filter pred l))) = map input (filter pred l) /\
+      forall q, q < t \/ t + length (filter pred l) <= q -> snd r q = out q.
+  Proof.
+    induction l as [|i l IH]; intros t out; cbn [scan_range filter].
+    - cbn. repeat split; auto.
+    - change (cm pred i) with (if pred i then 1 else 0).
+      change (cemit pred input t i) with (if pred i then Some (t, input i) else None).
+      destruct (pred i) eqn:Pi.
+      + rewrite Nat.add_1_r. destruct (IH (S t) (upd t (input i) out)) as (H1 & H2 & H3).
+        cbn zeta in *. cbn [length seq map]. repeat split.
+        * rewrite H1. lia.
+        * rewrite H2. f_equal. rewrite H3 by lia. unfold upd. rewrite Nat.eqb_refl. reflexivity.
+        * intros q Hq. rewrite H3 by lia. unfold upd.
+          destruct (q =? t) eqn:E; [apply Nat.eqb_eq in E; lia| reflexivity].
+      + rewrite Nat.add_0_r. apply IH.
+  Qed.
+
+  Lemma copy_if_body_general : forall n ops out0, legal_scan n ops = true ->
+      let r := copy_if_body_par pred input ops out0 in
+      fst r = length (filter pred (seq 0 n)) /\
+      map (snd r) (seq 0 (fst r)) = map input (filter pred (seq 0 n)) /\
+      forall q, fst r <= q -> snd r q = out0 q.
+  Proof.
+    intros n ops out0 HL r. destruct (copy_if_body_seq pred input n ops out0 HL) as [Hf Hs].
+    fold r in Hf, Hs. unfold scan_seq in Hf, Hs.
+    destruct (scan_range_copyif_spec (seq 0 n) 0 out0) as (H1 & H2 & H3). cbn zeta in *. cbn [plus] in *.
+    split; [rewrite Hf; exact H1|]. split.
+    - rewrite Hf, H1. etransitivity; [|exact H2]. apply map_ext. intros; apply Hs.
+    - intros q Hq. rewrite Hs. apply H3. right. rewrite <- H1, <- Hf. exact Hq.
+  Qed.
+End CopyIfGeneral.
+
+Local Open Scope Z_scope.
+Fixpoint dedup_from (prev : Z) (l : list Z) : list Z :=
+  match l with
+  | [] => []
+  | y :: r => if Z.eqb prev y then dedup_from y r else y :: dedup_from y r
+  end.
+Fixpoint adj (prev : Z) (l : list Z) : list (Z * Z) :=
+  match l with [] => [] | y :: r => (prev, y) :: adj y r end.
+Local Close Scope Z_scope.
+
+Lemma dedup_cons : forall r x, dedup (x :: r) = x :: dedup_from x r.
+Proof.
+  induction r as [|y r IH]; intros x; [reflexivity|].
+  change (dedup (x :: y :: r)) with (if Z.eqb x y then dedup (y :: r) else x :: dedup (y :: r)).
+  cbn [dedup_from]. rewrite IH. destruct (Z.eqb x y) eqn:E; [|reflexivity].
+  apply Z.eqb_eq in E. subst. reflexivity.
+Qed.
+
+Lemma last_cons_default : forall (a : list Z) y p, last (y :: a) p = last a y.
+Proof.
+  induction a as [|z a IH]; intros y p; [reflexivity|].
+  change (last (y :: z :: a) p) with (last (z :: a) p). rewrite (IH z p), (IH z y). reflexivity.
+Qed.
+
+Lemma dedup_from_app : forall a b p, dedup_from p (a ++ b) = dedup_from p a ++ dedup_from (last a p) b.
+Proof.
+  induction a as [|y a IH]; intros b p; [reflexivity|].
+  cbn [app dedup_from]. rewrite IH, last_cons_default. destruct (Z.eqb p y); reflexivity.
+Qed.
+
+Lemma dedup_app : forall P C, P <> [] -> dedup (P ++ C) = dedup P ++ dedup_from (last P 0%Z) C.
+Proof.
+  intros [|x r] C HP; [congruence|]. cbn [app]. rewrite !dedup_cons, dedup_from_app.
+  rewrite last_cons_default. reflexivity.
+Qed.
+
+Lemma last_dedup : forall r x d, last (x :: dedup_from x r) d = last r x.
+Proof.
+  induction r as [|y r IH]; intros x d; [reflexivity|].
+  cbn [dedup_from]. destruct (Z.eqb x y) eqn:E.
+  - apply Z.eqb_eq in E. subst. rewrite IH. symmetry. apply last_cons_default.
+  - change (last (x :: y :: dedup_from y r) d) with (last (y :: dedup_from y r) d).
+    rewrite IH, last_cons_default. reflexivity.
+Qed.
+
+Lemma dedup_from_adj : forall l p,
+    dedup_from p l = map snd (filter (fun ab => negb (Z.eqb (fst ab) (snd ab))) (adj p l)).
+Proof.
+  induction l as [|y l IH]; intros p; [reflexivity|].
+  cbn [dedup_from adj filter fst snd]. destruct (Z.eqb p y); cbn [negb map snd]; rewrite IH; reflexivity.
+Qed.
+
+Lemma adj_length : forall l p, length (adj p l) = length l.
+Proof. induction l; intros; cbn; auto. Qed.
+
+Lemma nth_adj : forall l p i, i < length l ->
+    nth i (adj p l) (0%Z, 0%Z) = (nth i (p :: l) 0%Z, nth (S i) (p :: l) 0%Z).
+Proof.
+  induction l as [|y l IH]; intros p i Hi; [cbn in Hi; lia|].
+  destruct i as [|i]; [reflexivity|]. cbn [adj nth]. rewrite IH by (cbn in Hi; lia). reflexivity.
+Qed.
+
+Lemma filter_map_comm : forall {X Y} (p : Y -> bool) (g : X -> Y) l,
+    filter p (map g l) = map g (filter (fun x => p (g x)) l).
+Proof. intros X Y p g l. induction l as [|x l IH]; cbn; [reflexivity|]. destruct (p (g x)); cbn; rewrite IH; reflexivity. Qed.
+
+(* what the scan body of one chunk (x0 :: rest) writes = dedup_from x0 rest *)
+Lemma chunk_scan_writes : forall x0 rest,
+    let tmp := x0 :: rest in
+    map (fun i => nth (S i) tmp 0%Z)
+        (filter (fun i => negb (Z.eqb (nth i tmp 0%Z) (nth (S i) tmp 0%Z))) (seq 0 (length rest)))
+    = dedup_from x0 rest.
+Proof.
+  intros x0 rest tmp. rewrite dedup_from_adj.
+  set (g := fun i => nth i (adj x0 rest) (0%Z, 0%Z)).
+  set (ne := fun ab : Z * Z => negb (Z.eqb (fst ab) (snd ab))).
+  rewrite <- (map_nth_seq (adj x0 rest) (0%Z, 0%Z)) at 1. rewrite adj_length.
+  fold g. rewrite filter_map_comm, map_map.
+  assert (E : filter (fun i => negb (Z.eqb (nth i tmp 0%Z) (nth (S i) tmp 0%Z))) (seq 0 (length rest))
+              = filter (fun x => ne (g x)) (seq 0 (length rest))).
+  { apply filter_ext_in. intros i Hi. apply in_seq in Hi. unfold ne, g. rewrite nth_adj by lia. reflexivity. }
+  rewrite E. apply map_ext_in. intros i Hi. apply filter_In in Hi. destruct Hi as [Hi _]. apply in_seq in Hi.
+  unfold g. rewrite nth_adj by lia. reflexivity.
+Qed.
+
+Lemma map_seq_last : forall (out : nat -> Z) n L d, 1 <= n -> map out (seq 0 n) = L -> out (n - 1) = last L d.
+Proof.
+  intros out n L d Hn E. destruct n as [|m]; [lia|]. rewrite seq_S, map_app in E. cbn in E. subst L.
+  rewrite last_last. f_equal. lia.
+Qed.
+
+Lemma map_upd_snoc : forall (out : nat -> Z) k x, map (upd k x out) (seq 0 (k + 1)) = map out (seq 0 k) ++ [x].
+Proof.
+  intros out k x. rewrite Nat.add_1_r, seq_S, map_app. cbn [map plus]. f_equal.
+  - apply map_ext_in. intros q Hq. apply in_seq in Hq. unfold upd.
+    destruct (q =? k) eqn:E; [apply Nat.eqb_eq in E; lia|reflexivity].
+  - unfold upd. rewrite Nat.eqb_refl. reflexivity.
+Qed.
+
+Lemma map_rebase : forall (o1 o2 : nat -> Z) a b,
+    map (fun q => if q <? a then o1 q else o2 (q - a)) (seq 0 (a + b)) = map o1 (seq 0 a) ++ map o2 (seq 0 b).
+Proof.
+  intros o1 o2 a b. rewrite seq_app, map_app. f_equal.
+  - apply map_ext_in. intros q Hq. apply in_seq in Hq.
+    assert (q <? a = true) by (apply Nat.ltb_lt; lia). rewrite H. reflexivity.
+  - cbn [plus]. induction b as [|b IH]; [reflexivity|].
+    rewrite !seq_S, !map_app, IH. cbn [map plus]. f_equal.
+    assert (a + b <? a = false) by (apply Nat.ltb_ge; lia). rewrite H.
+    f_equal. f_equal. lia.
+Qed.
+
+Lemma removelast_map_seq : forall (out : nat -> Z) n, 1 <= n -> map out (seq 0 (n - 1)) = removelast (map out (seq 0 n)).
+Proof.
+  intros out n Hn. destruct n as [|m]; [lia|]. rewrite seq_S, map_app. cbn [map].
+  rewrite removelast_last. f_equal. f_equal. lia.
+Qed.
+
+Lemma unique_chunks_correct : forall fuel maxbuf scheds started src out first P,
+    1 <= maxbuf -> length src < fuel ->
+    scheds_legal fuel maxbuf (length src) scheds ->
+    (started = false -> P = [] /\ first = 0) -> (started = true -> P <> []) ->
+    map out (seq 0 first) = dedup P ->
+    exists o k, unique_chunks fuel maxbuf scheds started src out first = Some (o, k) /\
+                map o (seq 0 k) = dedup (P ++ src).
+Proof.
+  induction fuel as [|fu IH]; intros maxbuf scheds started src out first P Hmb Hf HS Hns Hst Hacc; [lia|].
+  cbn [unique_chunks]. destruct src as [|x0 tl].
+  - exists out, first. rewrite app_nil_r. auto.
+  - set (src := x0 :: tl) in *.
+    set (len := Nat.min maxbuf (length src)).
+    assert (Hlen : 1 <= len <= length src) by (subst len src; cbn [length]; lia).
+    cbn [scheds_legal] in HS. assert (E0 : (length src =? 0) = false) by (apply Nat.eqb_neq; subst src; cbn; lia).
+    rewrite E0 in HS. fold len in HS. destruct HS as [HL HS'].
+    set (rest := firstn (len - 1) tl).
+    assert (Htmp : firstn len src = x0 :: rest).
+    { subst src rest. destruct len as [|l']; [lia|]. cbn [firstn]. f_equal. f_equal. lia. }
+    assert (Hrl : length rest = len - 1).
+    { subst rest. rewrite firstn_length. subst src. cbn [length] in Hlen. lia. }
+    rewrite Htmp.
+    set (first' := if started && Z.eqb (out (first - 1)) x0 then first - 1 else first).
+    set (out1 := upd first' x0 out).
+    (* the output so far, including this chunk's head *)
+    assert (Hacc1 : map out1 (seq 0 (first' + 1)) ++ dedup_from x0 rest = dedup (P ++ (x0 :: rest))).
+    { subst out1. rewrite map_upd_snoc. destruct started.
+      - specialize (Hst eq_refl). rewrite dedup_app by auto.
+        assert (Hfirst : 1 <= first).
+        { destruct P as [|p0 pr]; [congruence|]. rewrite dedup_cons in Hacc.
+          apply (f_equal (@length Z)) in Hacc. rewrite map_length, seq_length in Hacc. cbn in Hacc. lia. }
+        assert (Hlast : out (first - 1) = last P 0%Z).
+        { rewrite (map_seq_last out first (dedup P) 0%Z Hfirst Hacc).
+          destruct P as [|p0 pr]; [congruence|]. rewrite dedup_cons, last_dedup. symmetry. apply last_cons_default. }
+        subst first'. cbn [andb]. rewrite Hlast. cbn [dedup_from].
+        destruct (Z.eqb (last P 0%Z) x0) eqn:E.
+        + apply Z.eqb_eq in E. rewrite removelast_map_seq by auto. rewrite Hacc.
+          assert (Hne : dedup P <> []) by (destruct P as [|p0 pr]; [congruence| rewrite dedup_cons; discriminate]).
+          rewrite (app_removelast_last 0%Z Hne) at 2.
+          replace (last (dedup P) 0%Z) with x0; [reflexivity|].
+          destruct P as [|p0 pr]; [congruence|]. rewrite dedup_cons, last_dedup, <- E. apply last_cons_default.
+        + rewrite Hacc, <- app_assoc. reflexivity.
+      - destruct (Hns eq_refl) as [-> ->]. subst first'. cbn [andb app map seq]. rewrite dedup_cons. reflexivity. }
+    destruct (copy_if_body_par
+                (fun i => negb (Z.eqb (nth i (x0 :: rest) 0%Z) (nth (S i) (x0 :: rest) 0%Z)))
+                (fun i => nth (S i) (x0 :: rest) 0%Z) (hd [] scheds) (fun q => out1 (first' + 1 + q)))
+      as [sum out2] eqn:Ebody.
+    pose proof (copy_if_body_general
+                  (fun i => negb (Z.eqb (nth i (x0 :: rest) 0%Z) (nth (S i) (x0 :: rest) 0%Z)))
+                  (fun i => nth (S i) (x0 :: rest) 0%Z) (len - 1) (hd [] scheds)
+                  (fun q => out1 (first' + 1 + q)) HL) as G.
+    rewrite Ebody in G. cbn zeta in G. cbn [fst snd] in G. destruct G as (G1 & G2 & _).
+    rewrite <- Hrl in G2. rewrite chunk_scan_writes in G2.
+    destruct (len =? 0) eqn:El; [apply Nat.eqb_eq in El; lia|].
+    assert (Hsrc : src = (x0 :: rest) ++ skipn len src) by (rewrite <- Htmp; symmetry; apply firstn_skipn).
+    destruct (IH maxbuf (List.tl scheds) true (skipn len src)
+                 (fun q => if q <? first' + 1 then out1 q else out2 (q - (first' + 1)))
+                 (first' + sum + 1) (P ++ (x0 :: rest))) as (o & k & Hrun & Hres); auto.
+    + rewrite skipn_length. lia.
+    + rewrite skipn_length. exact HS'.
+    + discriminate.
+    + intros _. destruct P; discriminate.
+    + replace (first' + sum + 1) with ((first' + 1) + sum) by lia.
+      rewrite map_rebase, G2. exact Hacc1.
+    + exists o, k. split; [exact Hrun|]. rewrite Hres, <- app_assoc, <- Hsrc. reflexivity.
+Qed.
+
+(* unique(Par) = std::unique for every chunk size >= 1 and every legal schedule of every chunk's scan *)
+Lemma unique_par_correct : forall maxbuf scheds src,
+    1 <= maxbuf -> scheds_legal (S (length src)) maxbuf (length src) scheds ->
+    unique_par maxbuf scheds src = Some (dedup src).
+Proof.
+  intros maxbuf scheds src Hmb HS. unfold unique_par. destruct src as [|x0 tl]; [reflexivity|].
+  destruct (unique_chunks_correct (S (length (x0 :: tl))) maxbuf scheds false (x0 :: tl) (fun _ => 0%Z) 0 [])
+    as (o & k & Hrun & Hres); auto; try discriminate.
+  rewrite Hrun, Hres. reflexivity.
+Qed.
+
+Definition serial_ops (n : nat) : list scan_op := if n =? 0 then [] else [OFinal 0 0 n].
+Lemma unique_example :
+  scheds_legal 4 2 3 [serial_ops 1; serial_ops 0] /\
+  unique_par 2 [serial_ops 1; serial_ops 0] [7; 7; 7]%Z = Some [7]%Z.
 Proof. repeat split. Qed.
